@@ -215,6 +215,9 @@ func c17(w *core.World, r *core.Report) {
 	}
 
 	// ---- MAP-ORDER-NAV (shared with C11)
+	r.Rule("NO-GLOBAL-STATE", 1, "(shared with C04) the concurrently running validators share no package-level variable of the repository other than ones assigned only by the package initialiser and of an immutable type: a process-wide cache or shared parsed object written by one validator goroutine and read by another makes the verdict depend on the schedule.")
+	ruleNoGlobalState(w, r, "NO-GLOBAL-STATE", validate)
+
 	r.Rule("MAP-ORDER", 3, "(shared with C11) no verdict-relevant navigation depends on Go map iteration order.")
 	mapOrder(w, r)
 	_ = fmt.Sprintf
